@@ -315,6 +315,27 @@ pub fn c13_workloads(thorough: bool) -> Vec<(Workload, usize)> {
         }
         v.push((w, if thorough { 1 } else { 1 }));
     }
+    // packet-size boundary: payload sizes whose DATA chunk, bundled with a SACK (16 bytes) or with a
+    // second DATA chunk, lands within a few bytes of the 1200-byte limit, in both directions at once
+    {
+        let mut msgs = vec![];
+        // same instant in both directions (a SACK is pending when the DATA leaves), and pairs of
+        // messages submitted back to back (two DATA chunks in one transmit round)
+        for (i, sz) in [1172usize, 1168, 1164, 1160, 1156, 1152].iter().enumerate() {
+            msgs.push(m(A, 0, 0, i as u64 * 40, *sz));
+            msgs.push(m(B, 0, 0, i as u64 * 40, *sz));
+        }
+        for (i, (s1, s2)) in [(584usize, 572usize), (584, 576), (584, 580), (588, 584), (592, 584), (8, 1148), (8, 1152), (12, 1152), (16, 1152), (20, 1152), (4, 1152)].iter().enumerate() {
+            msgs.push(m(A, 0, 0, 300 + i as u64 * 40, *s1));
+            msgs.push(m(A, 0, 0, 300 + i as u64 * 40, *s2));
+        }
+        let mut w = wl("P-packet-size-boundary", vec![ChanSpec::reliable_ordered(0)], msgs);
+        w.record_wire = true;
+        w.linger_ms = 0;
+        w.horizon_ms = 20_000;
+        w.faults = vec![Fault::Drop, Fault::Delay(3)];
+        v.push((w, 1));
+    }
     for (burst, cwnd) in [(1usize, 0usize), (4, 8192)] {
         let mut w = wl(&format!("B-burst{burst}-cwnd{cwnd}"), vec![ChanSpec::reliable_ordered(0)], (0..10).map(|i| m(A, 0, 0, 0, 1100 + i)).collect());
         w.max_burst = Some(burst);
